@@ -34,6 +34,11 @@ def api_replay(prop, cmd, module, cfg, tier, replay, keyfn, env):
 def run(tier, replay=None):
     env = {"TZ": "UTC"}
     if replay:
+        info = json.load(open(os.path.join(replay, "info.json"))) if os.path.isdir(replay) else {}
+        if info.get("record", {}).get("op") in ("FatalFirst", "Requests") or "kept" in info.get("record", {}):
+            from . import transport
+            v = Verdict(PROP, info.get("tier", tier), "model_checking")
+            return transport.replay(v, replay)      # a record of the real-driver pass: that pass is run again
         return api_replay(PROP, "c01", "Trace_Api", "Trace_Api.cfg", tier, replay, key, env)
     v = Verdict(PROP, tier, "model_checking")
     v.replay_info = {"seed": vflib.seed(), "tier": tier}
